@@ -1300,3 +1300,8 @@ Proof.
   rewrite (v1_tcp_roundtrip ipf fam st dt sa da (dec sp) (dec dp) rest); try assumption; try lia.
   rewrite S3, D3. reflexivity.
 Qed.
+
+(* a concrete IP text conversion for the Examples of Properties_C38.v: knows 1.1.1.1, ::1 and ::ffff:1.1.1.1 *)
+Definition ex_ipf (t : bytes) : option ipaddr :=
+  if list_eqb t b_1111 then Some a_1111 else if list_eqb t b_v6 then Some a_v6
+  else if list_eqb t b_mapped then Some a_1111 else None.
